@@ -192,7 +192,8 @@ def sync_level(scr, tier, prop, prefix, plan, replay_file=None):
             "rule": "scenarios = maximal behaviours of the bounded TLA+ model enumerated by TLC; non-trivial = the recorded trace contains at least one accepted controller write",
             "exhaustive": exhaustive, "tlc_runs": tlc_runs,
             "extra": {"drift_examples": drift_ex, "replay_wall_s": round(t_replay, 1), "trace_validation_wall_s": round(t_val, 1),
-                      "trace_lines": len(evs)}}
+                      "trace_lines": len(evs),
+                      "monitor_antecedent_counts": {k: v for k, v in sorted(vlib.VACUITY.items()) if k.startswith(tuple(p[:3] for p in prefixes))}}}
 
 
 # --------------------------------------------------------------------------------------
